@@ -26,7 +26,7 @@ FACTOR = 20.0
 
 
 def floors(tier):
-    return {"runs": 400, "runs_with_bound_at_start": 150, "runs_with_active_bound_at_end": 150, "outward_start_runs": 60, "lattice_least_squares_runs": 60, "runs_with_inert_differencing_settings": 100, "runs_continued_from_a_target_stop": 150, "runs_continued_from_a_target_already_met_at_the_start_point": 40, "runs_with_user_step_cap_below_one": 60, "runs_preceded_by_another_problem_on_the_same_box": 150, "runs_with_free_optimum_grazing_a_bound": 60, "runs_in_30_to_90_dimensions_with_memory_above_10": 40, "__nontrivial__": 150}
+    return {"runs": 400, "runs_with_bound_at_start": 150, "runs_with_active_bound_at_end": 150, "outward_start_runs": 60, "lattice_least_squares_runs": 60, "runs_with_inert_differencing_settings": 100, "runs_continued_from_a_target_stop": 150, "runs_whose_gradient_is_returned_in_one_reused_array": 150, "runs_continued_from_a_target_stop_after_another_run_in_between": 60, "runs_continued_from_a_target_already_met_at_the_start_point": 40, "runs_with_user_step_cap_below_one": 60, "runs_preceded_by_another_problem_on_the_same_box": 150, "runs_with_free_optimum_grazing_a_bound": 60, "runs_in_30_to_90_dimensions_with_memory_above_10": 40, "__nontrivial__": 150}
 
 
 def exhaustive(tier):
@@ -198,6 +198,9 @@ def run(spec):
     else:
         P = gen.make_problem(spec["problem"])
     cfg = dict(jac="callable", maxcor=spec["maxcor"], ftol=0.0, gtol=GTOL, maxiter=3000, maxfun=30000)
+    if spec["kind"] in ("random", "pattern") and int(spec["problem"]["seed"]) % 5 == 3:
+        cfg["reuse_grad_buffer"] = True  # the user's gradient code fills one preallocated array and returns it at every call
+        out.count("runs_whose_gradient_is_returned_in_one_reused_array")
     if spec.get("step_cap") is not None:
         cfg["max_steplength"] = spec["step_cap"]  # the user's cap on the step length (below 1: every full step is cut)
         out.count("runs_with_user_step_cap_below_one")
@@ -230,6 +233,11 @@ def run(spec):
                 out.count("runs_continued_from_a_target_stop")
                 if spec["target_frac"] >= 1.0:
                     out.count("runs_continued_from_a_target_already_met_at_the_start_point")
+                if int(P.spec["seed"]) % 2 == 0:
+                    # between the two legs the process solves something else (here: the same problem to the end, which reaches lower
+                    # objective values than the first leg did)
+                    probes.run_min(P, cfg)
+                    out.count("runs_continued_from_a_target_stop_after_another_run_in_between")
                 leg2 = probes.run_min(P, dict(cfg, maxcor=spec.get("restart_maxcor", spec["maxcor"])), checkpoint=leg1.result,
                                       x0=np.array(leg1.result.x, dtype=float, copy=True))
                 judge(out, P, leg2, where + " continued from a target stop")
